@@ -75,6 +75,11 @@ def reset_globals(*thermos):
     t.AbstractStream.feed_priorities.clear()
     try: t.network.disjunctions.clear()
     except Exception: pass
+    # registries and ticket counters are process-global (an unpickled stream may register itself)
+    for cls in (t.Stream, t.AbstractStream, t.AbstractUnit):
+        try:
+            cls.registry.data.clear(); cls.ticket_numbers.clear()
+        except Exception: pass
 
 # ---- reading concrete state --------------------------------------------------------------------
 
